@@ -948,6 +948,9 @@ func clGenConf(r *rng, cmd string, src int, s *sink) string {
 
 func genCL(cfg *config, r *rng, i int, s *sink) string {
 	cmd := pick(r, []string{"convert", "convert", "gopro.laptimes", "gopro.laptimes", "gopro.render", "gopro.convert"})
+	if cfg.prop == "C17" {
+		cmd = "gopro.laptimes" // the detector as the command uses it: every reading of a file against the effective line
+	}
 	which := pick(r, []string{"explicit", "explicit", "cwd", "home", "both", "none", "missing"})
 	if cfg.prop == "C12" {
 		// the start date as the command line hands it to the converter
